@@ -728,7 +728,7 @@ func revDelta(r *vh.Rand) int64 {
 func randHistory(r *vh.Rand, h *vh.Meta, mutate bool) Case {
 	c := Case{Family: "random"}
 	if mutate {
-		c.Family = "alias"
+		c.Family = "random-alias"
 	}
 	var w *Cfg // last configuration expected to be in force
 	rev := int64(r.Intn(5)) - 2
@@ -1005,7 +1005,7 @@ func main() {
 	if f := flag.Lookup("stderrthreshold"); f != nil {
 		f.Value.Set("FATAL")
 	}
-	meta := vh.NewMeta("corpus cases; every ordered pair (A, B) of configurations over two target names x two request names (target: absent / ->r1 addr a / ->r1 addr b / ->r2 addr a; request: absent / content 1 / content 2) loaded as revisions 1 and 2 (quick: A valid; thorough: all A over a 225-configuration universe, for valid A also revisions 2-then-2 and 2-then-1, plus A as base); every ordered pair over one request name whose value is absent / nil pointer / empty message / a subscription and two targets using it or absent (256); seeded random histories of 2..7 loads evolving one configuration by 0..3 edits per load (add/remove/edit target, re-point, edit/rename/swap/add/remove request, nil request pointer, other fields), invalid variants, nil loads, revision deltas {+1,0,-1,+5,-7,+-2^40}, with and without a (valid/invalid/nil) base; 'alias' histories in which the caller also edits its loaded message in place. distinct = distinct (base, operations); non-trivial = some accepted load on a non-nil current configuration that produced at least one handler call")
+	meta := vh.NewMeta("corpus cases; every ordered pair (A, B) of configurations over two target names x two request names (target: absent / ->r1 addr a / ->r1 addr b / ->r2 addr a; request: absent / content 1 / content 2) loaded as revisions 1 and 2 (quick: A valid; thorough: all A over a 225-configuration universe, for valid A also revisions 2-then-2 and 2-then-1, plus A as base); every ordered pair over one request name whose value is absent / nil pointer / empty message / a subscription and two targets using it or absent (256); seeded random histories of 2..7 loads evolving one configuration by 0..3 edits per load (add/remove/edit target, re-point, edit/rename/swap/add/remove request, nil request pointer, other fields), invalid variants, nil loads, revision deltas {+1,0,-1,+5,-7,+-2^40}, with and without a (valid/invalid/nil) base; in every fourth history the caller also edits, in place, the message it loaded last (and often re-loads it). distinct = distinct (base, operations); non-trivial = some accepted load on a non-nil current configuration that produced at least one handler call")
 	e := &emitter{dir: o.Out, cf: vh.NewCaseFile(), meta: meta, limit: 1500}
 
 	if o.Replay != "" {
@@ -1080,15 +1080,14 @@ func main() {
 
 	// random histories
 	r := vh.NewRand(o.Seed)
-	nrand, nalias := 3000, 300
+	nrand := 3400
 	if o.Thorough() {
-		nrand, nalias = 40000, 3000
+		nrand = 44000
 	}
+	// every fourth history also has the caller edit its loaded message in
+	// place (since b7e5099 that must not reach the Config)
 	for i := 0; i < nrand; i++ {
-		e.add(randHistory(r.Fork(), meta, false))
-	}
-	for i := 0; i < nalias; i++ {
-		e.add(randHistory(r.Fork(), meta, true))
+		e.add(randHistory(r.Fork(), meta, i%4 == 3))
 	}
 	e.flush()
 	meta.Exhaustive = false
